@@ -127,6 +127,27 @@ def directed(name, quick):
                                 P.add(c, PB.M(q))
                                 cs.append(c)
                             out.append(P.steps)
+    if name == 'durhist':
+        # the duration is read, then a registry duration (of a top-level or nested operation) changes without anything being
+        # added, and the duration is read again; also read / unroll / read
+        for nested in (False, True):
+            for v0, v1 in ((8, 24), (24, 8), (8, 2)):
+                for fixed in (4, 12):
+                    P = PB.Prog()
+                    c = P.new()
+                    P.add(c, PB.W(0, fixed))
+                    tgt = c
+                    if nested:
+                        tgt = P.new()
+                    P.add(tgt, PB.leaf('Wait', [1], [[1, 'ALL']], ['reg', 'k1']))
+                    P.add(tgt, PB.leaf('Rx180', [1], [[1, 'MICROWAVE']], ['global', 'MW']))
+                    if nested:
+                        P.add_sub(c, tgt)
+                    P.act('SetDur', key='k1', val=v0)
+                    P._step(a='Obs', c=c, what='full')
+                    P.act('SetDur', key='k1', val=v1)
+                    P._step(a='Obs', c=c, what='full')
+                    out.append(P.steps)
     if name == 'qlreal':
         # a handful of circuits that also go through the real OpenQL compiler: runs of equal pulses (x90 x90 ..), idle and
         # Hadamard, the parity-check pattern, waits, a nested block -- what is scheduled must be what was listed
@@ -283,12 +304,12 @@ def directed(name, quick):
 SOURCES = {
     'C01': ('flat', 'nest', 'chan', 'deep', 'unroll2', 'unroll3', 'sim', 'repotests', 'library'),
     'C02': ('twinblocks', 'flat', 'nest', 'chan', 'deep', 'obsnest', 'sim', 'repotests', 'library'),
-    'C04': ('flat', 'nest', 'nest0', 'sim', 'repotests'),
+    'C04': ('flat', 'nest', 'nest0', 'durhist', 'sim', 'repotests'),
     'C05': ('kinds', 'copyapplied', 'twinops', 'twinblocks', 'nest', 'mask', 'sim'),
     'C06': ('unroll', 'unroll2', 'unroll3', 'twinblocks', 'nest', 'sim', 'library'),
     'C07': ('acq', 'acqdir', 'sim'),
     'C11': ('flatten', 'flatdir', 'sim', 'library'),
-    'C03': ('hist', 'plothist', 'acq', 'acqdir', 'twinops', 'twinblocks', 'obsnest', 'sim'),
+    'C03': ('hist', 'plothist', 'acq', 'acqdir', 'twinops', 'twinblocks', 'durhist', 'obsnest', 'sim'),
     'C08': ('kinds', 'export', 'sim', 'library'),
     'C18': ('drawkinds', 'drawhist', 'drawnest'),
     'C15': ('kinds', 'export', 'qldir', 'qlreal'),
@@ -405,7 +426,7 @@ M_Init == /\\ heap = DoNewCircuit(DoAddOp(DoNewCircuit(<<>>, "n1", NoLink, <<"fi
       reps=[('fixed', 2), ('fixed', 3)], acts=('NewCircuit', 'AddOp', 'AddSub', 'Apply'), linktypes=(), max_circs=2, max_objs=8,
       max_steps=6 if quick else 7, workers=8, min_emit=6, timeout=120, cap=1500 if quick else 20000,
       keep=lambda p: p[-1]['a'] == 'Apply' and any(s['a'] == 'AddSub' for s in p))
-    for dn in ('flatdir', 'copyapplied', 'qldir', 'acqdir', 'unroll3', 'twinops', 'twinblocks', 'qlreal'):
+    for dn in ('flatdir', 'copyapplied', 'qldir', 'acqdir', 'unroll3', 'twinops', 'twinblocks', 'qlreal', 'durhist'):
         if dn in want:
             out.append({'name': dn, 'programs': directed(dn, quick), 'generated': 0, 'tlc_states': 0, 'tlc_generated': 0, 'mode': 'directed family (python)'})
             out[-1]['generated'] = len(out[-1]['programs'])
